@@ -6,8 +6,10 @@ import (
 	"fmt"
 	"math/big"
 	"sort"
+	"strconv"
 	"strings"
 	"sync"
+	"sync/atomic"
 )
 
 var termMu sync.Mutex
@@ -80,37 +82,55 @@ type Term struct {
 	maxSeq int  // largest creation number of a Fresh symbol inside
 }
 
-var (
-	termTab = map[string]*Term{}
-	termSeq int
-)
+
+const termShards = 256
+
+type termShard struct {
+	mu sync.Mutex
+	m  map[string]*Term
+}
+
+var termShardTab [termShards]termShard
+
+
+var termSeqAtomic int64
 
 func mk(op, name string, srt *Sort, ival *big.Int, vars []*Term, args ...*Term) *Term {
-	var sb strings.Builder
-	sb.WriteString(op)
-	sb.WriteByte('|')
-	sb.WriteString(name)
-	sb.WriteByte('|')
+	buf := make([]byte, 0, 64)
+	buf = append(buf, op...)
+	buf = append(buf, '|')
+	buf = append(buf, name...)
+	buf = append(buf, '|')
 	if ival != nil {
-		sb.WriteString(ival.String())
+		buf = ival.Append(buf, 10)
 	}
-	sb.WriteByte('|')
-	sb.WriteString(srt.Name)
-	sb.WriteString(srt.Class)
+	buf = append(buf, '|')
+	buf = append(buf, srt.Name...)
+	buf = append(buf, srt.Class...)
 	for _, v := range vars {
-		fmt.Fprintf(&sb, "^%d", v.id)
+		buf = append(buf, '^')
+		buf = strconv.AppendInt(buf, int64(v.id), 10)
 	}
 	for _, a := range args {
-		fmt.Fprintf(&sb, ",%d", a.id)
+		buf = append(buf, ',')
+		buf = strconv.AppendInt(buf, int64(a.id), 10)
 	}
-	key := sb.String()
-	termMu.Lock()
-	defer termMu.Unlock()
-	if t, ok := termTab[key]; ok {
+	h := uint32(2166136261)
+	for _, c := range buf {
+		h ^= uint32(c)
+		h *= 16777619
+	}
+	sh := &termShardTab[h%termShards]
+	key := string(buf)
+	sh.mu.Lock()
+	defer sh.mu.Unlock()
+	if sh.m == nil {
+		sh.m = map[string]*Term{}
+	}
+	if t, ok := sh.m[key]; ok {
 		return t
 	}
-	termSeq++
-	t := &Term{Op: op, Name: name, Sort: srt, IVal: ival, Vars: vars, Args: args, id: termSeq, size: 1}
+	t := &Term{Op: op, Name: name, Sort: srt, IVal: ival, Vars: vars, Args: args, id: int(atomic.AddInt64(&termSeqAtomic, 1)), size: 1}
 	for _, a := range args {
 		t.size += a.size
 		if a.fv {
@@ -144,7 +164,7 @@ func mk(op, name string, srt *Sort, ival *big.Int, vars []*Term, args ...*Term) 
 			}
 		}
 	}
-	termTab[key] = t
+	sh.m[key] = t
 	return t
 }
 
